@@ -109,6 +109,63 @@ def run_block(block):
     return Result(n=cnt, nontrivial=nt, violations=viols, outcomes=outcomes)
 
 
+# ------------------------------------------------------------------------ long reads over many variants
+BIG_N = 200
+BIG_ANCHORS = (0, 64, 70, 100, 128, 199)
+
+
+def big_kinds(tier):
+    anchors = BIG_ANCHORS + ((63, 127, 150) if tier == "thorough" else ())
+    anchors = tuple(sorted(anchors))
+    out = []
+    for a, b in itertools.combinations(anchors, 2):
+        out.append(tuple(range(a, b + 1)))  # covers every variant between its ends
+        out.append((a, b))  # covers its two end variants only (mate-pair like)
+    return out
+
+
+def big_blocks(tier):
+    kinds = big_kinds(tier)
+    for R in (1, 2, 3):
+        for prefix in itertools.combinations_with_replacement(range(len(kinds)), R - 1):
+            yield ("big", tier, prefix)
+
+
+def run_big(block):
+    _, tier, prefix = block
+    kinds = big_kinds(tier)
+    backbone = tuple(range(BIG_N))
+    lo = prefix[-1] if prefix else 0
+    viols = []
+    cnt = nt = 0
+    outcomes = set()
+    for last in range(lo, len(kinds)):
+        idx = list(prefix) + [last]
+        for with_backbone in (False, True):
+            reads = [kinds[i] for i in idx] + ([backbone] if with_backbone else [])
+            R = len(reads)
+            for k in (1, 2, 3):
+                for bridging in (True, False):
+                    prefsets = [()] if R > 2 else [c for m in range(R + 1) for c in itertools.combinations(range(R), m)]
+                    for pref in prefsets:
+                        cnt += 1
+                        res, sel = judge_selection(BIG_N, reads, k, bridging, set(pref), [30] * R)
+                        if len(sel) < R:
+                            nt += 1
+                        outcomes.add(("big", len(sel), R, bool(pref)))
+                        for clause, detail in res:
+                            if len(viols) < 4:
+                                viols.append(
+                                    {
+                                        "clause": clause,
+                                        "signature": "c07:" + clause + ":many-variants",
+                                        "detail": detail[:600],
+                                        "instance": {"n": BIG_N, "reads_as_ranges": [[r[0], r[-1], len(r)] for r in reads], "k": k, "bridging": bridging, "preferred": list(pref)},
+                                    }
+                                )
+    return Result(n=cnt, nontrivial=nt, violations=viols, outcomes=outcomes)
+
+
 # ------------------------------------------------------------------------ pipeline clause
 def pipeline_worlds(tier):
     T = tier == "thorough"
@@ -139,6 +196,20 @@ def pipeline_worlds(tier):
                         for h in (0, 1):
                             world["reads"].append({"sample": s, "chrom": "chrA", "hap": h, "segs": [[a, b, 5, 5]], "n": depth})
                 yield world, dict(max_coverage=k), [("C", "F", "M")]
+        # trio in which the mother has no alignments at all but phased blocks in a phased VCF given as phase input
+        # (pseudo reads from a preferred source count against the same budget)
+        for k in (3, 4, 6) + ((5, 7, 8) if T else ()):
+            for design in range(2):
+                for nblocks in (1, 2):
+                    depth = (2 * k) // 2 + 2
+                    chosen = spans if design == 0 else [s for s in spans if s[1] - s[0] == 1]
+                    haps = {"F": {"chrA": [[0, 1]] * nvar}, "M": {"chrA": [[0, 1]] * nvar}, "C": {"chrA": [[0, 1]] * nvar}}
+                    world = {"seed": seed, "chroms": chroms, "samples": ["F", "M", "C"], "haps": haps, "reads": [], "vcf_phase_for": "M", "vcf_phase_blocks": nblocks, "no_read_group": ["M"] if design == 0 else []}
+                    for s in ("F", "C"):
+                        for a, b in chosen:
+                            for h in (0, 1):
+                                world["reads"].append({"sample": s, "chrom": "chrA", "hap": h, "segs": [[a, b, 5, 5]], "n": depth})
+                    yield world, dict(max_coverage=k), [("C", "F", "M")]
 
 
 _scratch = None
@@ -156,6 +227,20 @@ def run_pipeline(inst):
         kw = dict(opts)
         if trios:
             kw["ped"] = synth.write_ped(os.path.join(d, "fam.ped"), trios)
+        if world.get("vcf_phase_for"):
+            who = world["vcf_phase_for"]
+            pv = synth.parse_vcf(paths["vcf"])
+            si = pv["samples"].index(who)
+            lines = list(pv["header"]) + [synth.FORMAT_LINES["PS"], "\t".join(["#CHROM", "POS", "ID", "REF", "ALT", "QUAL", "FILTER", "INFO", "FORMAT", who])]
+            nrec = len(pv["records"])
+            for ri, rec in enumerate(pv["records"]):
+                t = rec["line"].split("\t")
+                first = 0 if world["vcf_phase_blocks"] == 1 or ri < 2 or nrec < 4 else 2
+                lines.append("\t".join(t[:8] + ["GT:PS", "0|1:" + str(pv["records"][first]["pos"])]))
+            pin = os.path.join(d, "phased_input.vcf")
+            with open(pin, "w") as f:
+                f.write("\n".join(lines) + "\n")
+            kw["phase_inputs"] = [paths["bam"], pin]
         parsed, traces, err = pw.run_phase(paths, d, **kw)
         k = opts["max_coverage"]
         nt = False
@@ -194,16 +279,22 @@ def run(rep, tier, seed, only=None):
     st = par.explore(lambda: blocks(tier), run_block, label="C07/selection")
     rep.add_violations(st.violations)
     rep.add_crashes(st.crashes, "selection")
+    stb = par.explore(lambda: big_blocks(tier), run_big, label="C07/selection-many-variants")
+    rep.add_violations(stb.violations)
+    rep.add_crashes(stb.crashes, "selection-many-variants")
     st2 = par.explore(lambda: pipeline_worlds(tier), run_pipeline, label="C07/pipeline")
     rep.add_violations(st2.violations)
     rep.add_crashes(st2.crashes, "pipeline")
     rep.coverage.update(
-        evaluations=st.evaluations + st2.evaluations,
-        distinct_nontrivial=st.nontrivial + st2.nontrivial,
+        evaluations=st.evaluations + stb.evaluations + st2.evaluations,
+        distinct_nontrivial=st.nontrivial + stb.nontrivial + st2.nontrivial,
         rule="selection: every multiset of reads (subsets of >= 2 of n positions) x cap {1,2,3} x bridging x preferred subsets (R <= 4) x "
         "quality levels (R <= 3); non-trivial = at least one read was left out. pipeline: traced solver instances in which selection discarded reads",
         samples=[{"block": s} for s in st.samples[:3]] + [{"pipeline_world": s[0]["reads"][:2], "opts": s[1]} for s in st2.samples[:2]],
         selection_calls=st.evaluations,
+        selection_calls_many_variants=stb.evaluations,
+        many_variants_rule=f"{BIG_N} variant positions; reads = every pair of anchors {BIG_ANCHORS} (thorough: +63, 127, 150) as a full-range read or as a read covering "
+        "its two end variants only; every multiset of <= 3 such reads, with/without a read over all positions, x cap {1,2,3} x bridging x preferred subsets (<= 2 reads)",
         pipeline_runs=st2.evaluations,
         exhaustive=True,
         distinct_outcomes=len(st.outcomes) + len(st2.outcomes),
@@ -216,5 +307,9 @@ def replay(v):
     if "world" in i:
         r = run_pipeline((i["world"], i["opts"], [tuple(t) for t in i["trios"]] if i["trios"] else None))
         return r.violations
+    if "reads_as_ranges" in i:
+        reads = [tuple(range(a, b + 1)) if n_ > 2 or b == a + 1 else (a, b) for a, b, n_ in i["reads_as_ranges"]]
+        res, sel = judge_selection(i["n"], reads, i["k"], i["bridging"], set(i["preferred"]), [30] * len(reads))
+        return [{"clause": c, "detail": d} for c, d in res]
     res, sel = judge_selection(i["n"], [tuple(r) for r in i["reads"]], i["k"], i["bridging"], set(i["preferred"]), i["quals"])
     return [{"clause": c, "detail": d} for c, d in res]
